@@ -56,6 +56,9 @@ func (q *UnsafeQuery) Close() {
 	}
 	q.cursor.archetype = -2
 	q.cursor.table = -2
+	// Reset the row cursor, so that Next on a closed query does not keep iterating the current table.
+	q.cursor.index = 0
+	q.cursor.maxIndex = -1
 	q.tables = nil
 	q.table = nil
 	q.world.unlockSafe(q.lock)
